@@ -184,6 +184,9 @@ func discharge(o Obligation, dir string, thorough bool, timeout time.Duration) R
 	if a.Verdict == "unsat" {
 		return res
 	}
+	if strings.HasSuffix(o.Clause, ".exhaustive") {
+		return res // decided on the control-flow graph: the query is the constant verdict
+	}
 	if o.MustFail {
 		// a canary (an assertion that must not be provable): the default configurations of both z3 builds look for an
 		// inconsistency among the hypotheses that pure e-matching would not stumble upon (this is how the contradictory
